@@ -22,3 +22,17 @@ Definition load_module_outcome (dropbox_ok : bool) (bs : list Z) : outcome :=
           end
       end
   end.
+
+(* the part of the outcome decided before the payload is read: `Returned` here means "the header passes; the payload decides".
+   Used by the correspondence check: a file the header stage rejects must make the implementation raise ImportError.
+   (The payload stage is not compared outcome by outcome: the unmarshaller only learns the bytecode's version when it meets a
+   code object, so a hostile payload whose top-level object is not code is read with other string rules than the reader
+   model's, which describes values inside a code object - C10.) *)
+Definition header_outcome (bs : list Z) : outcome :=
+  if zlen bs <? 50 then Raised ImportErr else
+  let '(magic, r) := take 4 bs in
+  match decide magic with
+  | DErr e => Raised e
+  | DDropbox => Returned
+  | DHeader tv mi v => match parse_fields mi v r with Err _ => Raised ImportErr | Ok _ => Returned end
+  end.
